@@ -63,8 +63,7 @@ func TestVerif_C15_Rest(t *testing.T) {
 				}
 				scopes[s]["collections"][names[i].CollectionName()] = map[string]any{}
 			}
-			b, _ := json.Marshal(map[string]any{"bucket": tb.GetName(), "num_index_replicas": 0, "enable_shared_bucket_access": base.TestUseXattrs(),
-				"use_views": base.TestsDisableGSI(), "revs_limit": 1000 + payload, "scopes": scopes})
+			b, _ := json.Marshal(map[string]any{"bucket": tb.GetName(), "num_index_replicas": 0, "revs_limit": 1000 + payload, "scopes": scopes})
 			return string(b)
 		}
 		dbNames := []string{"vfdba", "vfdbb"}
@@ -210,13 +209,24 @@ func TestVerif_C15_Rest(t *testing.T) {
 			return true, true
 		}
 		do := func(sc *ServerContext, node, kind, db string, set, payload int) (status int) {
+			defer func() {
+				if status == http.StatusBadRequest {
+					rt.Fatalf("harness: %s %s on node %s was rejected as malformed (400); case: %s", kind, db, node, render())
+				}
+			}()
 			switch kind {
 			case "create":
-				status = BootstrapAdminRequest(t, sc, http.MethodPut, "/"+db+"/", body(set, payload)).StatusCode()
+				r := BootstrapAdminRequest(t, sc, http.MethodPut, "/"+db+"/", body(set, payload))
+				status = r.StatusCode()
+				if status == http.StatusBadRequest {
+					ops = append(ops, "400: "+r.Body)
+				}
 			case "update":
-				status = BootstrapAdminRequest(t, sc, http.MethodPut, "/"+db+"/_config", body(set, payload)).StatusCode()
+				r := BootstrapAdminRequest(t, sc, http.MethodPut, "/"+db+"/_config", body(set, payload))
+				status = r.StatusCode()
 			case "delete":
-				status = BootstrapAdminRequest(t, sc, http.MethodDelete, "/"+db+"/", "").StatusCode()
+				r := BootstrapAdminRequest(t, sc, http.MethodDelete, "/"+db+"/", "")
+				status = r.StatusCode()
 			}
 			return status
 		}
